@@ -86,8 +86,50 @@ def gen_array(rng):
     return ['array', dt, shape, data]
 
 
+SUB_DICT = ['OrderedDict', 'Counter', 'defaultdict_int', 'defaultdict_list', 'MyDict', 'MyDictAttr:1', 'MyDictAttr:2']
+SUB_LIST = ['MyList', 'MyListAttr:1', 'deque']
+SUB_TUPLE = ['MyTuple', 'Point', 'Pair']
+SUB_SCALAR = [("'ab'", 'MyStr'), ("'ab'", 'np.str_'), ("b'ab'", 'MyBytes'), ('1', 'MyInt'), ('0', 'MyInt'), ('1', 'Colour'), ('1', 'np.int64'),
+              ('1.5', 'MyFloat'), ('1.0', 'MyFloat')]
+SUB_PLAIN = ["None", "True", "0", "1", "2", "1.0", "1.5", "'a'", "'b'", "b'a'", "2**70"]
+
+
+def gen_sub(rng):
+    """an instance of a subclass of dict / list / tuple / set / frozenset / str / bytes / int / float / ndarray (see hashworker.SUBCLASSES).
+    Such objects are pickled whole, so they are built in the order written and hold only atoms and lists/tuples of atoms (a plain
+    set or dict inside a pickle has no canonical byte form)"""
+    def atom():
+        return ['leaf', rng.choice(SUB_PLAIN)]
+
+    def child():
+        r = rng.random()
+        if r < 0.7:
+            return atom()
+        return [rng.choice(['list', 'tuple']), [atom() for _ in range(rng.randint(0, 2))]]
+    r = rng.random()
+    if r < 0.35:
+        keys = distinct([['leaf', k] for k in rng.sample(["'a'", "'b'", "'c'", "1", "2", "1.5", "None"], rng.randint(0, 3))])
+        cls = rng.choice(SUB_DICT)
+        vals = [['leaf', str(rng.randint(0, 3))] if cls == 'Counter' else child() for _ in keys]
+        return ['sub', cls, ['dict', [[k, v] for k, v in zip(keys, vals)]]]
+    if r < 0.5:
+        return ['sub', rng.choice(SUB_LIST), ['list', [child() for _ in range(rng.randint(0, 3))]]]
+    if r < 0.65:
+        cls = rng.choice(SUB_TUPLE)
+        return ['sub', cls, ['tuple', [child() for _ in range(2 if cls != 'MyTuple' else rng.randint(0, 3))]]]
+    if r < 0.75:
+        k = rng.choice(['set', 'frozenset'])
+        return ['sub', 'MySet' if k == 'set' else 'MyFrozenset', [k, [['leaf', e] for e in rng.sample(['0', '1', '2', '-1', '7', '2**70'], rng.randint(0, 3))]]]
+    if r < 0.88:
+        e, cls = rng.choice(SUB_SCALAR)
+        return ['sub', cls, ['leaf', e]]
+    return ['sub', rng.choice(['MyArr', 'recarray', 'masked', 'masked1']), gen_array(rng)]
+
+
 def gen_value(rng, depth, tasks=True):
     r = rng.random()
+    if depth > 0 and r < 0.04:
+        return gen_sub(rng)
     if depth <= 0 or r < 0.30:
         return leaf(rng)
     if r < 0.42:
